@@ -3,7 +3,7 @@
 # Developer tool (not a registered check): analyses a scratch clone of /repo with the patch applied, so several
 # patches can be examined in parallel and /repo stays untouched. Prints one line per property and the findings.
 P=$(realpath "$1"); L=$2; shift 2
-W=/tmp/tp-$L; rm -rf $W; git clone -q /repo $W || exit 9
+W=/tmp/tp-$L-$$; rm -rf $W; git clone -q /repo $W || exit 9
 cd $W; if ! git apply "$P" 2>/dev/null; then if ! git apply -3 "$P" >/dev/null 2>&1; then echo "$L: PATCH DOES NOT APPLY"; cd /; rm -rf $W; exit 8; fi; fi
 mkdir -p $W/.ev
 for prop in "$@"; do
